@@ -260,7 +260,7 @@ func largeDocs() []corpus.Doc {
 // lineEndDocs: the small text documents with unusual line-end sequences (what a second text-mode conversion or a
 // careless editor leaves): CR CR LF, LF CR, a mix of all three kinds, a CR as the very last byte. Whatever such a
 // document denotes, it must denote the same under every delivery schedule.
-func lineEndDocs() []corpus.Doc {
+func lineEndDocs(thorough bool) []corpus.Doc {
 	var out []corpus.Doc
 	for _, d := range corpus.Small() {
 		if !d.Valid || !strings.HasSuffix(d.Name, "-lf") && d.Name != "vtt-full" && d.Name != "ssa-small" {
@@ -289,11 +289,23 @@ func lineEndDocs() []corpus.Doc {
 			out = append(out, corpus.Doc{Name: d.Format + "-" + v.name, Format: d.Format, Data: []byte(v.data), Valid: true})
 		}
 	}
+	// a document that is ONE line longer than the scanner's initial buffer, without terminator or ending in a lone
+	// CR (garbage to every format - the fact of failing, and how, must not depend on the delivery either)
+	for _, f := range []string{"srt", "vtt", "ssa"} {
+		sizes := []int{4097, 5000}
+		if thorough {
+			sizes = append(sizes, 65535)
+		}
+		for _, n := range sizes {
+			out = append(out, corpus.Doc{Name: fmt.Sprintf("%s-one-line-%d", f, n), Format: f, Data: []byte(strings.Repeat("x", n)), Valid: true},
+				corpus.Doc{Name: fmt.Sprintf("%s-one-line-%d-cr", f, n), Format: f, Data: []byte(strings.Repeat("x", n-1) + "\r"), Valid: true})
+		}
+	}
 	return out
 }
 
 func run(c *core.Ctx) {
-	docs := append(corpus.All(), lineEndDocs()...)
+	docs := append(append(corpus.All(), lineEndDocs(c.Tier == core.Thorough)...), corpus.Large()...)
 	pts := map[string]struct{}{}
 	check := func(d corpus.Doc, want string, sub string, cs Case, got string, size int) {
 		c.Traces++
